@@ -9,3 +9,4 @@ import BalmProofs.Props.C04
 #print axioms Balm.concrete_plain_history_inv
 #print axioms Balm.Impl.judgeStrict_sound
 #print axioms Balm.Props.C04.expandBlock_inv
+#print axioms Balm.Props.C04.expandASeeds_inv
